@@ -145,3 +145,55 @@ def term_pats(g, key):
     if key[0] == 'lit':
         return (('str', key[1], ''),)
     return (('re', key[1], ''),)
+
+
+# ---------------------------------------------------------------------------------------------------
+# templates: our own instantiation (textual substitution of parameters), for the reference semantics
+
+def _subst_item(it, env):
+    k = it[0]
+    if k == 'ref' and it[1] in env:
+        return env[it[1]]
+    if k in ('opt', 'star', 'plus'):
+        return (k, _subst_item(it[1], env))
+    if k == 'rep':
+        return (k, _subst_item(it[1], env), it[2], it[3])
+    if k in ('maybe', 'group'):
+        return (k, tuple(tuple(_subst_item(x, env) for x in s) for s in it[1]))
+    if k == 'tmpl':
+        return (k, it[1], tuple(_subst_item(a, env) for a in it[2]))
+    return it
+
+
+def instantiate_templates(g):
+    """Returns a template-free Grammar: every use name{args} becomes a reference to a rule called 'name{args}'."""
+    templates = {r.name: r for r in g.rules.values() if r.params}
+    if not templates:
+        return g
+    out = {}
+
+    def conv_item(it):
+        k = it[0]
+        if k == 'tmpl':
+            args = tuple(conv_item(a) for a in it[2])
+            inst = '%s{%s}' % (it[1], ','.join(item_text(a) for a in args))
+            if inst not in out:
+                t = templates[it[1]]
+                out[inst] = None        # reserve (recursion)
+                env = dict(zip(t.params, args))
+                alts = tuple((tuple(conv_item(_subst_item(x, env)) for x in s), al) for s, al in t.alts)
+                out[inst] = Rule(inst, t.mod, t.prio, alts)
+            return ('ref', inst)
+        if k in ('opt', 'star', 'plus'):
+            return (k, conv_item(it[1]))
+        if k == 'rep':
+            return (k, conv_item(it[1]), it[2], it[3])
+        if k in ('maybe', 'group'):
+            return (k, tuple(tuple(conv_item(x) for x in s) for s in it[1]))
+        return it
+    plain = []
+    for r in g.rules.values():
+        if r.params:
+            continue
+        plain.append(Rule(r.name, r.mod, r.prio, tuple((tuple(conv_item(x) for x in s), al) for s, al in r.alts)))
+    return Grammar(plain + [r for r in out.values()], g.terms.values(), g.ignore, g.start)
